@@ -155,7 +155,16 @@ registerGroup(users, 'plugins', orderAlphabetically=True)
 def registerUserValue(group, name, value):
     assert group._name.startswith('users')
     value._supplyDefault = True
-    group.register(name, value)
+    g = group.register(name, value)
+    gname = g._name.lower()
+    for name in registry._cache.keys():
+        if name.lower().startswith(gname) and len(gname) < len(name):
+            name = name[len(gname)+1:] # +1 for .
+            parts = registry.split(name)
+            if len(parts) == 1 and parts[0].isdigit():
+                # This gets the user values so they always persist.
+                g.get(parts[0])()
+    return g
 
 class ValidNick(registry.String):
     """Value must be a valid IRC nick."""
